@@ -129,6 +129,15 @@ def _getfix_postcondition(fn, test):
 def rule_parse_raise(ctx):
     R = "C08.PARSE-RAISE"
     n = 0
+    # what _getMsg turns into an alert when a parser raises it: the classes its handlers name
+    gm = ctx.index.func(TLSREC + "_getMsg")
+    mapped = set()
+    for (tr, h, hn) in ctx.an.cfg(gm).handlers:
+        if h.type is not None:
+            for e_ in (h.type.elts if isinstance(h.type, ast.Tuple) else [h.type]):
+                mapped.add(norm(e_))
+    if len(mapped) < 3:
+        raise AnalysisError("C08.PARSE-RAISE: exception handlers of _getMsg not found")
     for fi in ctx.index.all_functions():
         if fi.module.name not in ("messages", "extensions", "x509") or not (
                 fi.name == "parse" or fi.name.startswith("_parse") or fi.name == "parseBinary"):
@@ -148,7 +157,13 @@ def rule_parse_raise(ctx):
         for r in g.nodes:
             if r.kind == "raise" and r.ast.exc is not None:
                 en = norm(r.ast.exc).split("(")[0]
-                if en in PROTO_OK or en.endswith("Error") and en in ("DecodeError", "BadCertificateError"):
+                if any(ctx.an.exc.is_sub(en, m_) for m_ in mapped):
+                    continue
+                if en in PROTO_OK or en.startswith("TLS"):
+                    # a protocol exception class that _getMsg's handlers do not cover: it leaves the
+                    # receive path without an alert
+                    bad.append((r.ast, "raise %s, which _getMsg does not map to an alert (it maps %s)" % (
+                        en, ", ".join(sorted(mapped)))))
                     continue
                 if en in ("AssertionError", "ValueError", "TypeError", "KeyError", "TLSInternalError", "Exception"):
                     # controlling tests
@@ -431,6 +446,10 @@ RULES = [
     ("C08.CONSUME", "quick", rule_consume_c08),
     # a failed send must still end in the transport being closed: the write queue is dropped first
     ("C08.FLUSH", "quick", borrowed("c17", "rule_flush", "C17.FLUSH", "C08.FLUSH")),
+    # publicly invalid record lengths (empty TLS 1.3 inner plaintext, short CBC records) are refused, not indexed
+    ("C08.LENGTHS", "quick", borrowed("c02", "rule_lengths", "C02.LENGTHS", "C08.LENGTHS")),
+    # the fatal alert's invalidation reaches the cached session (the cache hands out the stored object)
+    ("C08.CACHE-IDENTITY", "quick", borrowed("c18", "rule_identity", "C18.IDENTITY", "C08.CACHE-IDENTITY")),
 ]
 
 
